@@ -116,6 +116,25 @@ func (p propC11) Gen(r *simrt.Rand, idx int, tier string) any {
 		c.ReadBack = "auto"
 		c.Keys = append(c.Keys, fat[0], fat[n-1])
 	}
+	if idx%24 == 7 || idx%24 == 20 {
+		// long-lived streams: as many readers of a content of several megabytes as the server has
+		// workers (and one more) are handed out and left unread while ordinary calls go on; then they
+		// are read to the end
+		id := uint64(950000)
+		n := c.World.NumWorkers + 1
+		c.Ops = append(c.Ops, Op{K: "set", Key: "stream-big", ID: id, Size: 3<<20 + r.Intn(3<<20)})
+		c.Keys = append(c.Keys, "stream-big")
+		for j := 0; j < n; j++ {
+			c.Ops = append(c.Ops, Op{K: "ropen", Key: "stream-big", N: 1000 + j})
+			id++
+			c.Ops = append(c.Ops, Op{K: "set", Key: c.Keys[0], ID: id, Size: 9 + r.Intn(100)}, Op{K: "get", Key: c.Keys[0]})
+		}
+		c.Ops = append(c.Ops, Op{K: "keys"})
+		for j := 0; j < n; j++ {
+			c.Ops = append(c.Ops, Op{K: "rread", N: 1000 + j})
+		}
+		c.ReadBack = "none"
+	}
 	return C11Case{Seq: &c}
 }
 
@@ -357,17 +376,30 @@ func grpcRealExec(c SeqCase) RunOut {
 		return out
 	}
 	s.a = &actors{db: db, txs: map[int]fs_db.Tx{}}
+	var cancels []context.CancelFunc
 	for i, o := range c.Ops {
 		switch o.K {
 		case "gc", "gctimer", "bg", "drain", "reopen":
 			continue // the server's internals are out of reach of a real client
 		}
+		// every call gets half a minute of real time: a call that never returns (the client parked
+		// by the transport, say) becomes an error the model does not expect instead of a hang
+		ctx, cancel := context.WithTimeout(context.Background(), 30*time.Second)
+		cancels = append(cancels, cancel)
+		w.Ctx = ctx
 		if !s.step(i, o) {
 			break
 		}
 	}
+	w.Ctx = context.Background()
+	for _, hr := range s.readers {
+		hr.rc.Close()
+	}
 	for _, id := range s.m.OpenTxs() {
 		s.a.txs[id].Rollback(w.Ctx)
+	}
+	for _, cancel := range cancels {
+		cancel()
 	}
 	db.Close()
 	if err := rs.shutdown(); err != nil && s.viol == nil {
